@@ -27,6 +27,8 @@
 (declare-fun hexenc (Bytes) Bytes)             ; hex.EncodeToString
 (declare-fun addrOK (Int Bytes) Bool)          ; codec id, bech32 string
 (declare-fun addrBytes (Int Bytes) Bytes)
+; A-CODEC: the bech32 address codecs reject the empty string ("empty address string is not allowed")
+(assert (forall ((c Int) (s Bytes)) (! (=> (addrOK c s) (> (blen s) 0)) :pattern ((addrOK c s)))))
 (declare-fun addrModule (Bytes Bytes) Bytes)   ; address.Module(name, derivation key)
 (declare-fun moduleAddr (Bytes) Bytes)         ; authtypes.NewModuleAddress(name)
 (declare-fun validDenom (Bytes) Bool)
